@@ -4,7 +4,7 @@ keeping the hand-written per-property text (rule / not_proved / assumptions / mo
 import re, json, os, glob
 ROOT=os.path.dirname(os.path.abspath(__file__))
 ob=json.load(open(os.path.join(ROOT,'obligations.json')))
-CLS={'Structural':'S','Exact':'E','Field':'E','Examples':'example','F64':'S','Generic':'S','Real':'R'}
+CLS={'Structural':'S','Exact':'E','Field':'E','Examples':'example','F64':'S','Generic':'S','Real':'R','Rounding':'F','Analysis':'R'}
 for i in range(1,21):
     pid=f"C{i:02d}"
     enabled=set(open(os.path.join(ROOT,'lean','props_enabled.txt')).read().split())
